@@ -230,3 +230,16 @@ func IteI64(c bool, a, b int64) int64 {
 	}
 	return b
 }
+
+// Digits returns a string of n arbitrary decimal digits.
+func Digits(tag string, n int) string {
+	b := make([]byte, n)
+	for i := range b {
+		v := val(tag).Int64()
+		if v < '0' || v > '9' {
+			v = '0'
+		}
+		b[i] = byte(v)
+	}
+	return string(b)
+}
